@@ -426,6 +426,16 @@ func (ex *Exec) regexpMatch(re *nativeRegexp, s Str) *Term {
 	if c, ok := s.concrete(); ok {
 		return mkBool(re.re.MatchString(c))
 	}
+	if p, ok := compileReProg(re.src); ok && len(s.b) <= 64 {
+		if p.asciiOnly() {
+			ex.stub("regexp match on symbolic text: exact NFA simulation of regexp/syntax program")
+			return p.symMatch(s.b)
+		}
+		if ex.modes["ascii-input"] {
+			ex.stub("regexp match on symbolic ASCII text: exact NFA simulation (one rune per byte)")
+			return p.symMatch(s.b)
+		}
+	}
 	ex.stub("regexp match on symbolic text: uninterpreted predicate per pattern")
 	return ufOnStr("re_match{"+re.src+"}", KBool, 0, s)
 }
